@@ -7,6 +7,9 @@ package network
 // chosen field values, call the unexported entry points and read unexported fields back.
 
 import (
+	"bytes"
+	"context"
+	"fmt"
 	"net"
 	"sync"
 	"time"
@@ -283,3 +286,207 @@ const (
 	VerifAuthSignatureRequest  = uint16(0x0300)
 	VerifAuthSignatureResponse = uint16(0x0400)
 )
+
+// ---------------------------------------------------------------- connection management (Topology)
+
+// VerifTopo is a set of PeerToPeer instances (one per node) joined pairwise by hand-made Peer
+// objects; packets stay in the real per-peer send queues until the driver delivers them.
+type VerifTopo struct {
+	nodes []*PeerToPeer
+	peers [][]*Peer // peers[a][b]: the peer object for node b at node a (nil for a == b)
+	ids   [][]byte
+}
+
+// VerifTopoState is what node a knows about peer b.
+type VerifTopoState struct {
+	ConnType   byte
+	Closed     bool
+	Transiting bool
+	Rejected   bool
+	Queued     int // packets waiting in the send queue a->b
+}
+
+// VerifNewTopo builds len(ids) nodes with the given roles, a full mesh of connections (b is an
+// incoming connection of a iff dials[b][a]), every peer in the orphanage, views of roles accurate,
+// and the connection limits {parent, uncle, children, nephew, other}.
+func VerifNewTopo(ids [][]byte, roles []byte, dials [][]bool, limits [5]int) *VerifTopo {
+	t := &VerifTopo{ids: ids, peers: make([][]*Peer, len(ids))}
+	for a := range ids {
+		l := verifLogger()
+		sp := newPeer(&verifNopConn{}, false, "", l)
+		sp.setID(NewPeerID(ids[a]))
+		sp.setNetAddress(NetAddress(fmt.Sprintf("10.0.0.%d:8080", a+1)))
+		p2p := newPeerToPeer("verif", sp, nil, nil, l)
+		p2p.setRole(PeerRoleFlag(roles[a]))
+		for i, ct := range []PeerConnectionType{p2pConnTypeParent, p2pConnTypeUncle, p2pConnTypeChildren, p2pConnTypeNephew, p2pConnTypeOther} {
+			p2p.setConnectionLimit(ct, limits[i])
+		}
+		t.nodes = append(t.nodes, p2p)
+	}
+	for a := range ids {
+		t.peers[a] = make([]*Peer, len(ids))
+		for b := range ids {
+			if a == b {
+				continue
+			}
+			p := newPeer(&verifNopConn{}, !dials[a][b], "", verifLogger())
+			p.setID(NewPeerID(ids[b]))
+			p.setNetAddress(NetAddress(fmt.Sprintf("10.0.0.%d:8080", b+1)))
+			p.setRole(PeerRoleFlag(roles[b]))
+			p.setRecvRole(PeerRoleFlag(roles[b]))
+			pis := newProtocolInfos()
+			pis.Add(p2pProtoControl)
+			p.setProtocolInfos(pis)
+			p.PutAttr(AttrSupportDefaultProtocols, true)
+			p.setCloseCbFunc(t.nodes[a].onClose)
+			t.nodes[a].addPeer(p)
+			t.peers[a][b] = p
+		}
+	}
+	return t
+}
+
+// TryTransit calls tryTransitPeerConnection(peer b, connType) at node a.
+func (t *VerifTopo) TryTransit(a, b int, connType byte) bool {
+	return t.nodes[a].tryTransitPeerConnection(t.peers[a][b], PeerConnectionType(connType))
+}
+
+// Deliver takes the next packet of the send queue a->b, serializes and parses it and hands it to
+// PeerToPeer.onPacket of node b (dropped if b has closed the connection). It returns the
+// sub-protocol and the decoded (requested type, connection type) of the packet.
+func (t *VerifTopo) Deliver(a, b int) (sub uint16, rt, ct byte, dropped bool, err error) {
+	ctx := t.peers[a][b].q.Pop()
+	if ctx == nil {
+		return 0, 0, 0, false, fmt.Errorf("nothing queued from %d to %d", a, b)
+	}
+	pkt := ctx.Value(p2pContextKeyPacket).(*Packet)
+	var wire bytes.Buffer
+	if _, err = pkt.WriteTo(&wire); err != nil {
+		return
+	}
+	rp := &Packet{}
+	if _, err = rp.ReadFrom(&wire); err != nil {
+		return
+	}
+	sub = rp.subProtocol.Uint16()
+	switch rp.subProtocol {
+	case p2pProtoConnReq:
+		m := &P2PConnectionRequest{}
+		if err = t.nodes[b].decode(rp.payload, m); err != nil {
+			return
+		}
+		rt = byte(m.ConnType)
+	case p2pProtoConnResp:
+		m := &P2PConnectionResponse{}
+		if err = t.nodes[b].decode(rp.payload, m); err != nil {
+			return
+		}
+		rt, ct = byte(m.ReqConnType), byte(m.ConnType)
+	}
+	if t.peers[b][a].IsClosed() {
+		return sub, rt, ct, true, nil
+	}
+	rp.sender = t.peers[b][a].ID()
+	t.nodes[b].onPacket(rp, t.peers[b][a])
+	return sub, rt, ct, false, nil
+}
+
+// InjectResponse queues a P2PConnectionResponse{reqType, connType} from b to a without b's handlers.
+func (t *VerifTopo) InjectResponse(b, a int, reqType, connType byte) error {
+	m := &P2PConnectionResponse{ReqConnType: PeerConnectionType(reqType), ConnType: PeerConnectionType(connType)}
+	pkt := newPacket(p2pProtoControl, p2pProtoConnResp, t.nodes[b].encode(m), t.nodes[b].ID())
+	return t.peers[b][a].sendPacket(pkt)
+}
+
+// SetRole calls PeerToPeer.setRole at node a.
+func (t *VerifTopo) SetRole(a int, role byte) { t.nodes[a].setRole(PeerRoleFlag(role)) }
+
+// Role returns the node's own role flags.
+func (t *VerifTopo) Role(a int) byte { return byte(t.nodes[a].Role()) }
+
+// Learn gives node x the current role of node a the way the query handlers do (the seed/root
+// address books are left alone so that no discover round tries to dial).
+func (t *VerifTopo) Learn(x, a int) {
+	p := t.peers[x][a]
+	r := t.nodes[a].Role()
+	rr := t.nodes[x].resolveRole(r, p.ID(), true)
+	p.setRecvRole(r)
+	if !p.EqualsRole(rr) {
+		p.setRole(rr)
+	}
+}
+
+// Close closes node a's peer object for b.
+func (t *VerifTopo) Close(a, b int) { _ = t.peers[a][b].Close("verif") }
+
+// State reads what node a holds about peer b.
+func (t *VerifTopo) State(a, b int) VerifTopoState {
+	p := t.peers[a][b]
+	p.q.lock.Lock()
+	n := p.q.len
+	p.q.lock.Unlock()
+	return VerifTopoState{ConnType: byte(p.ConnType()), Closed: p.IsClosed(), Transiting: t.nodes[a].transiting.Contains(p),
+		Rejected: t.nodes[a].reject.Contains(p), Queued: n}
+}
+
+// QueuedTypes lists the packets waiting in the send queue a->b (oldest first) as
+// {sub-protocol, requested type, connection type}; the queue is left as it was.
+func (t *VerifTopo) QueuedTypes(a, b int) [][3]uint16 {
+	q := t.peers[a][b].q
+	var ctxs []context.Context
+	for c := q.Pop(); c != nil; c = q.Pop() {
+		ctxs = append(ctxs, c)
+	}
+	var res [][3]uint16
+	for _, c := range ctxs {
+		pkt := c.Value(p2pContextKeyPacket).(*Packet)
+		e := [3]uint16{pkt.subProtocol.Uint16(), 0, 0}
+		switch pkt.subProtocol {
+		case p2pProtoConnReq:
+			m := &P2PConnectionRequest{}
+			if t.nodes[a].decode(pkt.payload, m) == nil {
+				e[1] = uint16(m.ConnType)
+			}
+		case p2pProtoConnResp:
+			m := &P2PConnectionResponse{}
+			if t.nodes[a].decode(pkt.payload, m) == nil {
+				e[1], e[2] = uint16(m.ReqConnType), uint16(m.ConnType)
+			}
+		}
+		res = append(res, e)
+		q.Push(c, int(pkt.priority))
+	}
+	return res
+}
+
+// InSet reports whether peer b is a member of node a's set for its current connection type.
+func (t *VerifTopo) InSet(a, b int) bool {
+	p := t.peers[a][b]
+	return t.nodes[a].m[p.ConnType()].Contains(p)
+}
+
+// Count returns the number of peers of the given connection type at node a.
+func (t *VerifTopo) Count(a int, connType byte) int {
+	return t.nodes[a].lenPeers(PeerConnectionType(connType))
+}
+
+// DiscoverTick performs the connection decisions of one discoveryTicker round of discoverRoutine at
+// node a (same calls in the same order; dialling of unconnected addresses is left out).
+func (t *VerifTopo) DiscoverTick(a int) {
+	p2p := t.nodes[a]
+	r := p2p.Role()
+	if r.Has(p2pRoleRoot) {
+		p2p.discoverFriends()
+		return
+	}
+	rr := p2pRoleSeed
+	if r == p2pRoleSeed {
+		rr = p2pRoleRoot
+	}
+	for _, p := range p2p.findPeers(nil, p2pConnTypeFriend) {
+		p2p.tryTransitPeerConnection(p, p2pConnTypeNone)
+	}
+	if p2p.discoverParents(rr) {
+		p2p.discoverUncles(rr)
+	}
+}
